@@ -26,10 +26,20 @@ deriving DecidableEq, Repr, Inhabited
 /-- `ProfileLookup.GetAnthropicSupport`: (enabled, messages_path) or none. -/
 abbrev Support := String → Option (Bool × String)
 
-/-- `Factory.GetAnthropicSupport` over the regenerated table: `loader.GetProfile(endpointType)` is an
-    exact match on the profile NAME — no routing-prefix / alias resolution, no normalisation — then
-    `config.API.AnthropicSupport`. -/
+/-- `Factory.GetAnthropicSupport(endpointType)` as the compiled code answers it, for every endpoint
+    type a configuration can name: the regenerated column `endpointTypes[*].rawEnabled` (the gen program
+    calls the real function with the RAW type string, exactly as `tryPassthrough` does). The
+    messages_path component is never read by the code (see `declaredPathMismatch`). -/
 def genSupport : Support := fun t =>
+  match Olla.Gen.Profiles.endpointTypes.find? (fun r => r.1 == t) with
+  | some (_, _, true, _, _) => some (true, Olla.Gen.Profiles.passthroughPath)
+  | _ => none
+
+/-- The same lookup re-derived from the profile table as an exact match on the profile NAME (no
+    routing-prefix / alias resolution): this is what `loader.GetProfile(endpointType)` does on the
+    pinned tree. Informational: `aliasSpellingsNotRecognised` lists where it differs from the
+    endpoint's own (alias-resolved) profile. -/
+def exactNameSupport : Support := fun t =>
   match Olla.Gen.Profiles.profiles.find? (fun p => p.1 == t) with
   | some (_, _, _, some (en, path, _, _, _)) => some (en, path)
   | _ => none
@@ -111,5 +121,10 @@ def declaredPathMismatch : List (String × String) :=
     match p.2.2.2 with
     | some (true, path, _, _, _) => if path != Olla.Gen.Profiles.passthroughPath then some (p.1, path) else none
     | _ => none)
+
+/-- Valid endpoint types whose own (alias-resolved) profile declares native support but which the
+    handler's raw lookup does not recognise — such endpoints are always translated. Informational. -/
+def aliasSpellingsNotRecognised : List String :=
+  Olla.Gen.Profiles.endpointTypes.filterMap (fun r => if r.2.1 && !r.2.2.1 && r.2.2.2.1 then some r.1 else none)
 
 end Olla.Model.Passthrough
